@@ -3,8 +3,15 @@
  *         (b) ?gssv (square, NC and NR: for NR the factors are those of A^T). */
 #include "fact.h"
 
+static void judge_r(vf_case *c, const vf_api *P, const vf_mat *F, const int *perm_r, const int *perm_c,
+                  const SuperMatrix *L, const SuperMatrix *U, double u, const char *route, const int *reuse_perm_r);
 static void judge(vf_case *c, const vf_api *P, const vf_mat *F, const int *perm_r, const int *perm_c,
                   const SuperMatrix *L, const SuperMatrix *U, double u, const char *route)
+{ judge_r(c, P, F, perm_r, perm_c, L, U, u, route, NULL); }
+/* reuse_perm_r: the row permutation handed to a SamePattern_SameRowPerm refactorization (columns that kept the remembered pivot are exempt
+   from the diagonal-preference clause: "unless pivots of an earlier factorization are being reused") */
+static void judge_r(vf_case *c, const vf_api *P, const vf_mat *F, const int *perm_r, const int *perm_c,
+                  const SuperMatrix *L, const SuperMatrix *U, double u, const char *route, const int *reuse_perm_r)
 {
     int m = F->m, n = F->n; char why[300];
     if (!is_perm(perm_r, m)) { vf_viol(c, "perm_r-not-bijection", "%s: perm_r is not a permutation of 0..%d", route, m - 1); return; }
@@ -24,7 +31,7 @@ static void judge(vf_case *c, const vf_api *P, const vf_mat *F, const int *perm_
     ld wl;
     if (check_multipliers(P, Ld, m, n, u, why, sizeof why, &wl)) vf_viol(c, "multiplier-bound", "%s: %s", route, why);
     int dec, und;
-    if (check_diag_preference(P, perm_r, perm_c, Ld, Ud, L, m, n, u, &dec, &und, why, sizeof why)) vf_viol(c, "diagonal-preference", "%s: %s", route, why);
+    if (check_diag_preference_reuse(P, perm_r, perm_c, Ld, Ud, L, m, n, u, reuse_perm_r, &dec, &und, why, sizeof why)) vf_viol(c, "diagonal-preference", "%s: %s", route, why);
     c->counters[2] += dec; c->counters[3] += und;
     if (dec) vf_tag(c, "diagpref=decisive");
     if (wl > 1.5L) vf_tag(c, "multiplier>1");
@@ -76,6 +83,23 @@ static void c02_run(vf_case *c)
         vf_tag(c, "expansions=%d", R.stat.expansions > 3 ? 3 : R.stat.expansions);
         if (info == 0) { judge(c, P, &A, R.perm_r, R.perm_c, &R.L, &R.U, opt.DiagPivotThresh, "gstrf"); c->nontrivial = n >= 2; }
         else if (info < 0 || info > n) vf_viol(c, "info-unexpected", "gstrf returned info=%lld on a valid call (n=%d, library allocation)", (long long)info, n);
+        /* refactorizations through the factor routine itself (square and tall): same pattern, new values; ordering + row pivots + storage reused
+           (remembered pivots kept, or abandoned when they fail the threshold test), or ordering reused only */
+        for (int step = 0; step < 2 && info == 0 && R.have_LU && n >= 2 && rng_bool(r, step ? 0.4 : 0.45); step++) {
+            int kind = rng_int(r, 0, 3); fact_t mode = rng_bool(r, 0.8) ? SamePattern_SameRowPerm : SamePattern;
+            vf_mat A2; mat_revalue(r, P, &A, kind, R.perm_r, R.perm_c, &A2);
+            int *pr_in = malloc(sizeof(int) * (size_t)(m + 1)); memcpy(pr_in, R.perm_r, sizeof(int) * (size_t)m);
+            fact_redo(P, &A2, mode, NULL, 0, &R);
+            const char *rn2 = mode == SamePattern ? (tall ? "gstrf-SamePattern-tall" : "gstrf-SamePattern") : (tall ? "gstrf-SameRowPerm-tall" : "gstrf-SameRowPerm");
+            vf_tag(c, "refactor=%s", mode == SamePattern ? "SamePattern" : "SameRowPerm"); vf_tag(c, "refactor-%s", tall ? "tall" : "square"); vf_tag(c, "revalue=%d", kind);
+            if (R.info == 0) {
+                if (mode == SamePattern_SameRowPerm) vf_tag(c, memcmp(pr_in, R.perm_r, sizeof(int) * (size_t)m) ? "reuse=abandoned" : "reuse=kept");
+                judge_r(c, P, &A2, R.perm_r, R.perm_c, &R.L, &R.U, opt.DiagPivotThresh, rn2, mode == SamePattern_SameRowPerm ? pr_in : NULL);
+                c->counters[4]++;
+            } else if (R.info < 0 || R.info > n) vf_viol(c, "info-unexpected", "%s returned info=%lld on a valid call", rn2, (long long)R.info);
+            free(pr_in); mat_free(&A);  A = A2;
+            if (R.info != 0) break;           /* a singular refactorization ends the chain (C04's subject) */
+        }
         fact_free(&R);
     } else {
         SuperMatrix SA, SB, L, U; memset(&L, 0, sizeof L); memset(&U, 0, sizeof U);
